@@ -20,21 +20,23 @@ CONSTANTS Classes,     \* subset of {"cbc10", "tls12", "tls13"}
           BurstSizes,  \* k: "k key updates in a row from one side" as ONE step (TLS 1.3; {} = off)
           UploadRounds, UploadSizes, \* k, n: "k times (write n bytes; the receiver sends a KeyUpdate)" as ONE step
           MaxBurst,    \* how many such macro steps per scenario
+          DynChoices,  \* subset of BOOLEAN: dynamic record sizing on / off (chosen in Init)
           Paths        \* TRUE: the history is part of the state (every path is a scenario)
 
-VARIABLES st, hist, cnt, class
-vars == <<st, hist, cnt, class>>
-View == IF Paths THEN <<st, hist, class>> ELSE <<st, cnt, class, Len(hist)>>
+VARIABLES st, hist, cnt, class, dyn
+vars == <<st, hist, cnt, class, dyn>>
+View == IF Paths THEN <<st, hist, class>> ELSE <<st, cnt, class, Len(hist)>>     \* (dyn is st.q.dyn)
 
 Init ==
   /\ class \in Classes \cup (IF Forged THEN {"nil"} ELSE {})
+  /\ dyn \in DynChoices
   /\ st = IF class = "nil" THEN InitForged(ClassProfile("tls12"), FALSE)
-          ELSE IF Forged THEN InitForged(ClassProfile(class), TRUE) ELSE InitLive(ClassProfile(class))
+          ELSE IF Forged THEN InitForged(WithDyn(ClassProfile(class), dyn), TRUE) ELSE InitLive(WithDyn(ClassProfile(class), dyn))
   /\ hist = <<>>
   /\ cnt = [w |-> 0, ku |-> 0, mut |-> 0, cl |-> 0, ks |-> 0, b |-> 0]
 
 \* (\E r \in {e} : ... evaluates e once; TLC re-evaluates a LET definition at every use)
-Step(r, h, c) == r.ok /\ st' = r.s /\ hist' = Append(hist, h) /\ cnt' = c /\ UNCHANGED class
+Step(r, h, c) == r.ok /\ st' = r.s /\ hist' = Append(hist, h) /\ cnt' = c /\ UNCHANGED <<class, dyn>>
 
 \* a Read that would block for ever is not an interesting scenario (the trace specification still knows
 \* what it must do: time out): require something that ends the call
@@ -48,7 +50,7 @@ Ends(lst, r, n) == IF lst = <<>> \/ n = 0 THEN FALSE
 ReadUseful(x, k) == ~st.wr[x].closed /\ (k = 0 \/ st.rd[x].buf > 0 \/ (st.rd[x].err = "none" /\ Ends(st.net[Peer(x)], st.rd[x], 256)))
 
 Write(x, n) == /\ cnt.w < MaxW
-               /\ \E r \in {DoWrite(st, x, n, Exact(ModelFrags(st.q, n)))} :
+               /\ \E r \in {DoWrite(st, x, n, Exact(ModelFrags(st, x, n)))} :
                   Step(r, [op |-> "W", x |-> x, n |-> n], [cnt EXCEPT !.w = @ + 1])
 Read(x, k, al, pk) == /\ ReadUseful(x, k)
                       /\ \E r \in {DoRead(st, x, k, [L |-> 0, alert |-> al, peek |-> pk])} :
@@ -71,16 +73,16 @@ KUTimes(s, x, req, k) == IF k = 0 THEN s ELSE KUTimes(DoKeyUpdate(s, x, req).s, 
 RECURSIVE UploadTimes(_, _, _, _, _)
 UploadTimes(s, x, n, req, k) ==
   IF k = 0 THEN s
-  ELSE UploadTimes(DoKeyUpdate(DoWrite(s, x, n, Exact(ModelFrags(s.q, n))).s, Peer(x), req).s, x, n, req, k - 1)
+  ELSE UploadTimes(DoKeyUpdate(DoWrite(s, x, n, Exact(ModelFrags(s, x, n))).s, Peer(x), req).s, x, n, req, k - 1)
 Usable(x) == ~st.wr[x].dead /\ ~st.wr[x].closed
 Burst(x, req, k) == /\ cnt.b < MaxBurst /\ st.q.ku /\ Usable(x)
                     /\ st' = KUTimes(st, x, req, k)
                     /\ hist' = Append(hist, [op |-> "KUB", x |-> x, req |-> req, k |-> k])
-                    /\ cnt' = [cnt EXCEPT !.b = @ + 1] /\ UNCHANGED class
+                    /\ cnt' = [cnt EXCEPT !.b = @ + 1] /\ UNCHANGED <<class, dyn>>
 Upload(x, n, req, k) == /\ cnt.b < MaxBurst /\ st.q.ku /\ Usable(x) /\ Usable(Peer(x))
                         /\ st' = UploadTimes(st, x, n, req, k)
                         /\ hist' = Append(hist, [op |-> "UPL", x |-> x, n |-> n, req |-> req, k |-> k])
-                        /\ cnt' = [cnt EXCEPT !.b = @ + 1] /\ UNCHANGED class
+                        /\ cnt' = [cnt EXCEPT !.b = @ + 1] /\ UNCHANGED <<class, dyn>>
 
 \* the implementation's free choices only matter once an attacker or a Close is in play
 AlertChoices == IF cnt.mut > 0 THEN BOOLEAN ELSE {TRUE}
@@ -111,5 +113,5 @@ PropSticky == [][Sticky(st, st')]_vars
 
 \* ---- scenario emission ----
 Terminal == Len(hist) = MaxOps \/ ~st.live
-Emit == Terminal => PrintT(<<"SCN", ToJson([class |-> class, ops |-> hist])>>)
+Emit == Terminal => PrintT(<<"SCN", ToJson([class |-> class, dyn |-> dyn, ops |-> hist])>>)
 =============================================================================
